@@ -808,6 +808,9 @@ class Plugin:
             result = strax.dict_to_rec(result, dtype=self.dtype_for(_dtype))
             self._check_dtype(result, _dtype)
             result = self.chunk(start=start, end=end, data_type=_dtype, data=result)
+        else:
+            # A ready-made chunk must carry the promised dtype as well
+            self._check_dtype(result.data, _dtype)
         if result.data_type != _dtype:
             raise ValueError(
                 f"{self.__class__.__name__} returned a Chunk with data_type "
